@@ -25,7 +25,7 @@ PROPS = {
     "C06": dict(profiles=[("diff", 200, 2000)], tags={"diff"}, checks=[], corr={"only": {"diff", "diffstop", "difffail", "diffcur"}}),
     "C07": dict(profiles=[("diff", 200, 2000)], tags={"difflinks", "linkdiff"}, checks=["linkdiff"], corr={"only": {"difflinks"}, "links_as_sets": True},
                 profile_args={"diff": {"persisted": True}}),
-    "C08": dict(profiles=[("persist", 100, 1000), ("map", 30, 300), ("versions", 30, 300)], tags={"name", "encoding"}, checks=["names", "encoding"], corr={"only": {"mkroot"}, "stores": "eq"}, special="sched_names"),
+    "C08": dict(profiles=[("persist", 100, 1000), ("map", 30, 300), ("versions", 70, 400)], tags={"name", "encoding"}, checks=["names", "encoding"], corr={"only": {"mkroot"}, "stores": "eq"}, special="sched_names"),
     "C09": dict(profiles=[("persist", 80, 800), ("canon", 40, 400), ("versions", 40, 400)], tags={"shape", "rootsize", "faulted-rootsize"}, checks=["shape"], corr={"only": {"mkroot"}}, special="faults_persisted"),
     "C10": dict(profiles=[("nav", 150, 1500)], tags={"seek", "cursor"}, checks=[], corr={"only": {"seek", "seekstop", "iterstop", "cget", "cursor", "cmin", "cmax", "cceil", "cfwd", "cbwd"}}),
     "C11": dict(profiles=[("versions", 40, 400)], tags=FUNC | {"race", "alone"}, checks=[], corr={}, special="race"),
